@@ -14,7 +14,7 @@ import keyword
 import typing
 from dataclasses import field, make_dataclass
 
-from adaptix import DebugTrail, ExtraForbid, Retort, name_mapping
+from adaptix import DebugTrail, ExtraForbid, P, Retort, name_mapping
 from adaptix.conversion import ConversionRetort, get_converter, impl_converter, link, link_function
 
 from ..adx import DEBUG_MODES, attempt, error_nodes
@@ -287,8 +287,8 @@ def run_converter_case(ctx, rng, idx):
     dst_cls = make_dataclass(f"D{next(_n)}", [(i, int) for i in ids])
     cname_s, cname_d = pick(rng, CLASS_NAMES, USED["class_names"], 2)
     fname = pick(rng, FUNC_NAMES, USED["func_names"], 1)[0]
-    which = rng.choice(["class-names", "func-name", "stub-name", "field-ids-only", "link-function", "same-named-nested", "typeddict-keyword-dst", "link-function-name-pair", "hostile-constant"])
-    if which in ("same-named-nested", "typeddict-keyword-dst", "link-function-name-pair", "hostile-constant"):
+    which = rng.choice(["class-names", "func-name", "stub-name", "field-ids-only", "link-function", "same-named-nested", "typeddict-keyword-dst", "link-function-name-pair", "hostile-constant", "builtin-named-object-vs-literal"])
+    if which in ("same-named-nested", "typeddict-keyword-dst", "link-function-name-pair", "hostile-constant", "builtin-named-object-vs-literal"):
         ctx.count(f"converter_{which}")
         return run_converter_special(ctx, rng, which, ids)
     ctx.count(f"converter_{which}")
@@ -396,6 +396,37 @@ def run_converter_special(ctx, rng, which, ids):  # noqa: C901
         def check(o):
             return o == src
         desc["keys"] = keys
+    elif which == "builtin-named-object-vs-literal":
+        # a user function / factory / class NAMED like a builtin next to a constant whose literal form CALLS that builtin
+        # (range(0, 10, 2), frozenset({...}), slice(...), set(), bytearray(b'..')): the literal must reach the real builtin
+        from adaptix.conversion import link_constant  # noqa: PLC0415
+
+        bname, const = rng.choice([("range", range(0, 10, 2)), ("frozenset", frozenset({"x"})), ("slice", slice(None, None, 2)), ("set", set()), ("bytearray", bytearray(b"ab")),
+                                   ("frozenset", frozenset()), ("range", [range(3)]), ("slice", (slice(1, 2), 1))])
+        role = rng.choice(["link_function", "factory", "dst-class", "src-class"])
+        s_ = make_dataclass(bname if role == "src-class" else "S", [("a", int)])
+        d_ = make_dataclass(bname if role == "dst-class" else "D", [("a", int), ("c", typing.Any), ("y", typing.Any, field(default=None))])
+        recipe = [link_constant(P[d_].c, value=const)]
+        if role == "link_function":
+            def f1(m, /):
+                return "from-function"
+            _rename(f1, bname)
+            recipe.append(link_function(f1, P[d_].y))
+        elif role == "factory":
+            def fac():
+                return "fresh"
+            _rename(fac, bname)
+            recipe.append(link_constant(P[d_].y, factory=fac))
+        else:
+            recipe.append(link_constant(P[d_].y, value="plain"))
+        with AU.armed():
+            made = attempt(get_converter, s_, d_, recipe=recipe)
+        src = s_(0)
+        want_y = {"link_function": "from-function", "factory": "fresh"}.get(role, "plain")
+
+        def check(o):
+            return o.a == 0 and strict_eq(o.c, const) and o.y == want_y
+        desc.update(builtin=bname, role=role, constant=repr(const))
     elif which == "link-function-name-pair":
         base = rng.choice(["foo", "data", "coercer", "constant", ids[0]])
         s_ = make_dataclass("S", [("a", int)])
